@@ -3,7 +3,7 @@ import json
 import os
 import re
 
-from .kernel import (bool_call_switches, ExprBuilder, Loc, access_path, subexprs, variant_edges, is_local, AnchorMissing)
+from .kernel import (E, bool_call_switches, ExprBuilder, Loc, access_path, subexprs, variant_edges, is_local, AnchorMissing)
 from . import families as fam
 from . import life
 from . import sqe
@@ -286,6 +286,45 @@ def fd_alternatives(f, facts, roles):
         for x in subexprs(e):
             if x[0] == 'local':
                 multi.add(x[1])
+    # operations that choose descriptor positions by an enum argument (SpliceDirection): one alternative per variant,
+    # computed on feasible paths (so `match dir {..}`, `matches!` kept in a flag, or two separate `if`s agree)
+    from .kernel import place_key
+    discrs = []
+    for loc, s_ in f.assigns():
+        rv = s_['rv']
+        if rv['k'] == 'discr' and rv.get('variants') and len(rv['variants']) > 1 and (rv.get('adt') or '').startswith(('io::', 'net::', 'fs::', 'process::', 'mem::')):
+            key = rv['place']['l'] if not rv['place']['p'] else place_key(rv['place'])
+            if key not in [d[0] for d in discrs]:
+                discrs.append((key, rv['adt'], rv['variants'], loc))
+    if len(discrs) == 1 and leaf and multi:
+        key, adt, variants, dloc = discrs[0]
+        alts = []
+        for vidx, vname in variants:
+            pos = {}
+            for w in ws:
+                if w.off not in (4, 44) or f.is_term(w.loc):
+                    continue
+                st = f.at(w.loc)
+                rv = st['rv']
+                opnd = rv['ops'][0] if (rv['k'] == 'agg' and rv.get('union')) else (rv.get('op') if rv['k'] == 'use' else None)
+                if opnd is None or 'l' not in opnd or opnd['p']:
+                    pos[w.off] = leaf.get(w.off)
+                    continue
+                # (from the first read of the discriminant on: the reference it is read through is set up before)
+                defs = f.reaching_defs([dloc], w.loc, opnd['l'], env0={('D', key): int(vidx)})
+                exprs = []
+                for d in defs:
+                    if d == 'entry':
+                        continue
+                    exprs.append(ebp_def(f, d))
+                if len(exprs) == 1:
+                    pos[w.off] = exprs[0]
+                elif exprs:
+                    pos[w.off] = E('phi', tuple(exprs))
+                else:
+                    pos[w.off] = leaf.get(w.off)
+            alts.append({'cond': ((adt, vname),), 'pos': pos})
+        return alts
     if not multi and leaf:
         return [{'cond': (), 'pos': {off: e for off, e in leaf.items()}}]
     alts = []
@@ -308,6 +347,24 @@ def fd_alternatives(f, facts, roles):
             pos[off] = _subst_local(e, m, val)
         alts.append({'cond': tuple(conds), 'pos': pos})
     return alts
+
+
+def ebp_def(f, d):
+    """expression of the definition at location d (statement or call)"""
+    eb = ExprBuilder(f, multi='phi')
+    if isinstance(d, tuple) and d and d[0] == 'S':
+        return eb.local(d[1])
+    if isinstance(d, tuple) and d and d[0] == 'F':
+        inner, path = d[1], d[2]
+        if inner == 'entry' or (isinstance(inner, tuple) and inner and inner[0] == 'F'):
+            return E('unknown', 'field of %s' % (inner,))
+        st = f.at(inner)
+        if not f.is_term(inner) and st['rv']['k'] == 'agg' and len(path) == 1 and path[0] is not None and path[0] < len(st['rv']['ops']):
+            return eb.operand(st['rv']['ops'][path[0]])
+        e = eb.call(st) if f.is_term(inner) else eb.rvalue(st['rv'])
+        return E('proj', e, tuple('.%s' % i for i in path), None)
+    st = f.at(d)
+    return eb.call(st) if f.is_term(d) else eb.rvalue(st['rv'])
 
 
 def E_roots(w):
